@@ -12,6 +12,10 @@ pub mod climatedata;
 pub mod convert;
 pub mod energy;
 pub mod utils;
+#[cfg(cteenergymodel_verif)]
+pub mod verif;
+#[cfg(cteenergymodel_verif)]
+pub use types::HasSurface;
 
 pub use checks::check;
 pub use purge::purge_unused;
